@@ -7,6 +7,10 @@
 //   white box  (-DFRB_WHITEBOX): the repository's fastrandombytes.cpp is #included textually so that its three statics
 //                                (init, key, nonce) can be read after every request and `nonce` can be preset to a
 //                                reachable value (2^32-2, 2^64-2, …) before the first request (state injection).
+//                                The white-box build runs the product {request number classes} x {length classes = routes through
+//                                the assembly}: a fault of the assembly that needs BOTH a large request number (high nonce bytes
+//                                non-zero) AND a long request (the 4-blocks-at-a-time loop) is reached there, as a request of
+//                                fastrandombytes, not only as a direct call of the routine (run_asm_structured, black-box build).
 //
 // The generator state is process-global, hence every request history runs in its own forked child.  The destination
 // buffer lives in an arena that starts right after and ends right at a PROT_NONE page; the rest of the arena is a red
@@ -275,10 +279,10 @@ static void run_history(const u8 key[32], uint64_t start, const std::vector<Req>
 }
 
 // ---------------------------------------------------------------------------- direct calls of the assembly
+static void asm_call(const u8 key[32], const u8 nonce[8], size_t len, int side, size_t align);
 static void run_asm_direct(Rng& g, size_t count) {
   static const size_t L[] = {0, 1, 2, 31, 32, 63, 64, 65, 127, 128, 129, 191, 192, 193, 255, 256, 257, 319, 320, 321, 383, 384, 385,
                              447, 448, 449, 511, 512, 513, 575, 576, 577, 1023, 1024, 1025, 4095, 4096, 4097};
-  std::vector<u8> ref;
   for (size_t t = 0; t < count; t++) {
     u8 key[32], nonce[8];
     for (auto& b : key) b = (u8)g.next();
@@ -290,20 +294,96 @@ static void run_asm_direct(Rng& g, size_t count) {
     size_t len = t < 3 * NL ? L[t / 3] : (g.below(4) ? g.below(700) : g.below(6000));
     int side = t < 3 * NL ? (int)(t % 3) : (int)g.below(3);
     size_t align = g.below(64);
-    u8* buf = g_arena.place(len, side, align);
-    std::string lhs = "salsa20asm " + std::to_string(len) + " " + std::to_string((size_t)((uintptr_t)buf & 63)) + " " +
-                      std::to_string(side) + key_str(key, 32) + key_str(nonce, 8);
-    set_pending(lhs);
-    g_arena.fill(buf, len);
-    nfl_crypto_stream_salsa20_amd64_xmm6(buf, len, nonce, key);
-    bool rz = g_arena.redzone_ok(buf, len);
-    ref.resize(len);
-    ref_stream(ref.data(), len, nonce, key);
-    bool cag = len == 0 || memcmp(ref.data(), buf, len) == 0;
-    printf("%s => %d %d", lhs.c_str(), rz ? 1 : 0, cag ? 1 : 0);
-    put_data(stdout, buf, len);
-    printf("\n");
-    fflush(stdout);
+    asm_call(key, nonce, len, side, align);
+  }
+  g_pending[0] = 0;
+}
+
+// One direct call of the assembly, emitted as a `salsa20asm` line.
+static void asm_call(const u8 key[32], const u8 nonce[8], size_t len, int side, size_t align) {
+  static std::vector<u8> ref;
+  u8* buf = g_arena.place(len, side, align);
+  std::string lhs = "salsa20asm " + std::to_string(len) + " " + std::to_string((size_t)((uintptr_t)buf & 63)) + " " +
+                    std::to_string(side) + key_str(key, 32) + key_str(nonce, 8);
+  set_pending(lhs);
+  g_arena.fill(buf, len);
+  nfl_crypto_stream_salsa20_amd64_xmm6(buf, len, nonce, key);
+  bool rz = g_arena.redzone_ok(buf, len);
+  ref.resize(len);
+  ref_stream(ref.data(), len, nonce, key);
+  bool cag = len == 0 || memcmp(ref.data(), buf, len) == 0;
+  printf("%s => %d %d", lhs.c_str(), rz ? 1 : 0, cag ? 1 : 0);
+  put_data(stdout, buf, len);
+  printf("\n");
+  fflush(stdout);
+}
+
+// Length classes = one representative (or more) per route through the assembly.  The routine has a 4-blocks-at-a-time loop
+// (`._bytesatleast256`/`._mainloop1`, taken floor(len/256) times), a one-block loop (`._bytesbetween1and255`/`._mainloop2`,
+// taken for the remaining floor((len mod 256)/64) full blocks) and a partial last block that goes through a stack copy
+// (len mod 64 != 0).  Each of the three is taken 0, 1 or >= 2 times (tail: 0 or 1) somewhere in this list.
+static const size_t PATHLEN[] = {0, 1, 63, 64, 65, 128, 191, 192, 255, 256, 257, 320, 383, 511, 512, 513, 703, 768, 1000, 4096 + 17};
+static const size_t NPATHLEN = sizeof PATHLEN / sizeof *PATHLEN;
+
+// 64-bit values whose little-endian encoding exercises every byte / word boundary of the nonce
+static std::vector<uint64_t> nonce_classes(Rng& g) {
+  std::vector<uint64_t> v = {0, 1, 0xffULL, 0x100ULL, 0x101ULL, 0xffffULL, 0x10000ULL, 0x10001ULL, 0xffffffULL, 0x1000000ULL, 0x1000001ULL,
+                             0xfffffffeULL, 0xffffffffULL, 0x100000000ULL, 0x100000001ULL, 0x100000002ULL,
+                             1ULL << 40, 1ULL << 48, 1ULL << 56, 1ULL << 63, 0xfffffffffffffffeULL, 0xffffffffffffffffULL};
+  for (int k = 0; k < 2; k++) {   // random with all eight bytes non-zero and pairwise distinct
+    uint64_t x = 0;
+    u8 seen[256] = {0};
+    for (int i = 0; i < 8; i++) {
+      u8 b;
+      do b = (u8)(1 + g.below(255)); while (seen[b]);
+      seen[b] = 1;
+      x |= (uint64_t)b << (8 * i);
+    }
+    v.push_back(x);
+  }
+  return v;
+}
+
+// Every byte of the nonce and every byte of the key must matter on every route: for every length class
+//   * nonce = 0 except one byte (8 positions), random key            -> a byte that is dropped / replaced by a zero lane shows
+//   * nonce = all bytes equal except one (8 positions), random key   -> a byte that is replaced by another nonce byte shows
+//   * the nonce classes (LE64 of 0, 2^8-1…, 2^16±, …, 2^32-2…2^32+2, 2^40, …, 2^64-1, all-bytes-distinct random)
+//   * key = 0 except one byte (32 positions; rotating over the length classes so that every word meets every route)
+static void run_asm_structured(Rng& g) {
+  u8 key[32], nonce[8];
+  size_t t = 0;
+  std::vector<uint64_t> nc = nonce_classes(g);
+  for (size_t li = 0; li < NPATHLEN; li++) {
+    size_t len = PATHLEN[li];
+    if (len == 0) continue;
+    for (auto& b : key) b = (u8)g.next();
+    for (int i = 0; i < 8; i++) {
+      memset(nonce, 0, 8);
+      nonce[i] = (u8)(1 + g.below(255));
+      asm_call(key, nonce, len, (int)(t++ % 3), g.below(64));
+      u8 bg = (u8)(1 + g.below(255)), v;
+      do v = (u8)g.next(); while (v == bg);
+      memset(nonce, bg, 8);
+      nonce[i] = v;
+      asm_call(key, nonce, len, (int)(t++ % 3), g.below(64));
+    }
+    for (uint64_t x : nc) {
+      for (int i = 0; i < 8; i++) nonce[i] = (u8)(x >> (8 * i));
+      asm_call(key, nonce, len, (int)(t++ % 3), g.below(64));
+    }
+    for (int i = 0; i < 8; i++) nonce[i] = (u8)(1 + g.below(255));
+    for (int w = 0; w < 8; w++) {   // one byte of every key word; the byte within the word rotates with the length class
+      memset(key, 0, 32);
+      key[4 * w + (li + w) % 4] = (u8)(1 + g.below(255));
+      asm_call(key, nonce, len, (int)(t++ % 3), g.below(64));
+    }
+  }
+  // all 32 key byte positions on the three loops at once (4-block x2, one-block x2, partial tail)
+  for (int i = 0; i < 32; i++) {
+    memset(key, 0, 32);
+    key[i] = (u8)(1 + g.below(255));
+    for (int j = 0; j < 8; j++) nonce[j] = (u8)(1 + g.below(255));
+    asm_call(key, nonce, 703, (int)(t++ % 3), g.below(64));
   }
   g_pending[0] = 0;
 }
@@ -502,6 +582,11 @@ int main() {
   // direct calls of the assembly routine with arbitrary nonces
   js = g.next();
   run_job(job++, [&] { Rng gj(js); run_asm_direct(gj, th ? 1500 : 180); });
+  // direct calls: every nonce byte / key word x every route through the assembly (one job per pass: a fault loses one pass only)
+  for (int pass = 0; pass < (th ? 3 : 1); pass++) {
+    js = g.next();
+    run_job(job++, [&] { Rng gj(js); run_asm_structured(gj); });
+  }
 #else
   // white box: nonce preset to reachable values whose increment carries far / wraps
   static const uint64_t STARTS[] = {0xfeULL, 0xfffeULL, 0xfffffeULL, 0xfffffffeULL, 0xfffffffffeULL, 0xfffffffffffeULL,
@@ -513,9 +598,36 @@ int main() {
     run_job(job++, [&] {
       Rng g(js);
       std::vector<Req> r;
-      for (size_t i = 0; i < 5; i++) r.push_back({i == 2 ? (size_t)0 : rnd_len(g) % 300, (int)g.below(3), g.below(64), true});
+      for (size_t i = 0; i < 5; i++) r.push_back({i == 2 ? (size_t)0 : (i % 2 ? rnd_len(g) : rnd_len(g) % 300), (int)g.below(3), g.below(64), true});
       run_history(key, st, r);
     });
+  }
+  // product {nonce classes} x {length classes}: the static nonce is preset to the class value, the FIRST request served there has
+  // the class length (so the long requests, i.e. the 4-block loop of the assembly, meet every nonce byte pattern), a second
+  // request of a rotating length follows (nonce advanced by exactly one whatever the length was; wrap 2^64-1 -> 0 included).
+  {
+    std::vector<uint64_t> nc = nonce_classes(g);
+    size_t pi = 0;
+    for (uint64_t st : nc) {
+      rnd_key(key);
+      for (size_t li = 0; li < NPATHLEN; li++, pi++) {
+        size_t l1 = PATHLEN[li], l2 = PATHLEN[(li + 1 + pi / NPATHLEN) % NPATHLEN];
+        int s1 = (int)(pi % 3), s2 = (int)((pi + 1) % 3);
+        size_t a1 = g.below(64), a2 = g.below(64);
+        run_job(job++, [&] { run_history(key, st, {{l1, s1, a1, true}, {l2, s2, a2, true}}); });
+        if (th) {   // the same pair reached after a short history instead of as first request
+          uint64_t js = g.next();
+          run_job(job++, [&] {
+            Rng gj(js);
+            std::vector<Req> r;
+            size_t pre = 1 + gj.below(3);
+            for (size_t i = 0; i < pre; i++) r.push_back({rnd_len(gj) % 300, (int)gj.below(3), gj.below(64), true});
+            r.push_back({l1, s2, a2, true});
+            run_history(key, st - pre, r);
+          });
+        }
+      }
+    }
   }
   for (size_t h = 0; h < (th ? 40u : 6u); h++) {
     rnd_key(key);
@@ -525,7 +637,7 @@ int main() {
     run_job(job++, [&] {
       Rng g(js);
       std::vector<Req> r;
-      for (size_t i = 0; i < 6; i++) r.push_back({rnd_len(g) % 400, (int)g.below(3), g.below(64), true});
+      for (size_t i = 0; i < 6; i++) r.push_back({i % 2 ? rnd_len(g) : rnd_len(g) % 400, (int)g.below(3), g.below(64), true});
       run_history(key, st, r);
     });
   }
